@@ -457,9 +457,12 @@ func (bq *InMemoryBuildQueue) VerifDumpState() *VerifState {
 					*violations = append(*violations, "task of operation "+name+" is assigned to a worker that is not registered")
 				}
 			}
-			for i := range t.operations {
+			for i, to := range t.operations {
 				if i.sizeClassQueue != t.getCurrentSizeClassQueue() {
 					*violations = append(*violations, "task of operation "+name+" has operations in different size class queues")
+				}
+				if bq.operationsNameMap[to.name] != to || to.invocation != i || to.task != t {
+					*violations = append(*violations, "task of operation "+name+" holds operation "+to.name+" that is not registered (under that invocation)")
 				}
 			}
 			tasks[t] = vt
